@@ -127,16 +127,16 @@ def gov (n : Nat) (f : Option Nat) (kind : String) : String :=
     | some i => if kind == "panic" then panicAt e "handler" i else failAt e "handler" i
   let r := run e govProg
   let status := if has r.2.outer "set proposal.Status = v1.StatusPassed" then "passed"
-    else if has r.2.outer "set proposal.Status = v1.StatusFailed" then "failed" else "?"
+    else if has r.2.outer "set proposal.Status = v1.StatusFailed" || has r.2.outer "set proposal.Status = v1.StatusFailed #2" then "failed" else "?"
   s!"flow={flowStr r.1} status={status} stored={b01 (has r.2.outer "keeper.SetProposal")} paid={count r.2.outer "handler"}"
 
 /-- `pbci <ntok> <unknown token idx|-> <convFail idx|-> <isContract> <memoSendCallTo> <call> <refund==receiver> <zero coins> <refund calls ok>` -/
 def bci (ntok : Nat) (pre conv : Option Nat) (isContract memoCall : Bool) (call : String) (same zero refundOk : Bool) : String :=
-  let conds := ["found", "externalClaim.(type) is *types.MsgBridgeCallClaim"]
-    ++ (if isContract then ["k.evmKeeper.IsContract(ctx, to)"] else [])
-    ++ (if memoCall then ["isMemoSendCallTo"] else [])
-    ++ (if same then ["bytes.Equal(receiverAddr.Bytes(), refundAddr.Bytes())"] else [])
-    ++ (if zero then ["baseCoins.IsZero()"] else [])
+  let conds := ["ExecuteClaim: found", "ExecuteClaim: externalClaim.(type) is *types.MsgBridgeCallClaim"]
+    ++ (if isContract then ["Keeper.BridgeCallEvm: k.evmKeeper.IsContract(ctx, to)"] else [])
+    ++ (if memoCall then ["Keeper.BridgeCallEvm: isMemoSendCallTo", "Keeper.BridgeCallHandler: isMemoSendCallTo"] else [])
+    ++ (if same then ["Keeper.BridgeCallHandler: bytes.Equal(receiverAddr.Bytes(), refundAddr.Bytes())"] else [])
+    ++ (if zero then ["Keeper.BridgeCallHandler: baseCoins.IsZero()"] else [])
   let e := baseEnv conds ntok
   let e := match conv with
     | none => e
@@ -158,11 +158,11 @@ def bci (ntok : Nat) (pre conv : Option Nat) (isContract memoCall : Bool) (call 
 
 /-- `pibc <app ok|err> <fx 0|1> <evmaddr 0|1> <conv ok|err|-> <memo none|nojson|invalid|othertype|call> <call>` -/
 def ibc (app : String) (fx evmaddr : Bool) (conv memo call : String) : String :=
-  let conds := ["ok", "ack != nil"]
-    ++ (if fx then [] else ["receiveCoin.GetDenom() != fxtypes.DefaultDenom"])
-    ++ (if evmaddr then ["isEvmAddr"] else [])
-    ++ (if memo == "none" then [] else ["len(data.Memo) > 0"])
-    ++ (if memo == "call" then ["mp.(type) is *types.IbcCallEvmPacket"] else [])
+  let conds := ["RecvPacket: ok", "RecvPacket: ack != nil", "Keeper.OnRecvPacket: ok"]
+    ++ (if fx then [] else ["Keeper.OnRecvPacket: receiveCoin.GetDenom() != fxtypes.DefaultDenom"])
+    ++ (if evmaddr then ["Keeper.OnRecvPacket: isEvmAddr"] else [])
+    ++ (if memo == "none" then [] else ["Keeper.OnRecvPacket: len(data.Memo) > 0"])
+    ++ (if memo == "call" then ["Keeper.HandlerIbcCall: mp.(type) is *types.IbcCallEvmPacket"] else [])
   let e := baseEnv conds 0
   let e := if app == "err" then failAt e "im.IBCModule.OnRecvPacket" 0 else e
   let e := if conv == "err" then failAt e "k.crossChainKeeper.IBCCoinToEvm" 0 else e
